@@ -3,10 +3,12 @@
 A case is JSON-able:
   {"left": DF, "steps": [{"right": DF, "on": ON, "how": str}, ...], "fin": FIN, "data": variant}
   DF  = ["base", T] | ["where", DF, UE] | ["alias", DF, a] | ["proj", DF, [col, ...]] | ["limit", DF, n]  (n >= row count)
+        | ["sel", DF, [[UE over bare names, out], ...]]   (select of aliased expressions: the columns get new attribute ids)
   ON  = None | ["names", [k, ...], as_str] | ["exprs", [UE, ...], as_list]
   UE  = ["ref", REF] | ["lit", v] | ["bin", Op, UE, UE] | ["not", UE] | ["isnull", UE]
   REF = ["name", n] | ["df", DF, n] | ["alias", a, n]
-  FIN = None | ["where", UE] | ["select", [[UE, out], ...]]
+  FIN = None | ["where", UE] | ["select", [[UE, out], ...]] | ["rename", old, new]   (withColumnRenamed)
+  A ["df", DF, n] reference may also go through an ANCESTOR of a table of the chain (an intermediate frame).
 DataFrames are built once per distinct DF description inside a case, so a description denotes ONE object
 (that is what makes `df['c']` references and common-ancestor joins meaningful).
 """
@@ -64,6 +66,8 @@ def df_cols(d):
         return df_cols(d[1])
     if d[0] == "proj":
         return list(d[2])
+    if d[0] == "sel":
+        return [o for _, o in d[2]]
     raise ValueError(d)
 
 
@@ -104,6 +108,8 @@ class Builder:
             o = self.df(d[1]).select(*d[2])
         elif d[0] == "limit":
             o = self.df(d[1]).limit(d[2])
+        elif d[0] == "sel":
+            o = self.df(d[1]).select(*[self.ue(e).alias(out) for e, out in d[2]])
         else:
             raise ValueError(d)
         self.objs[k] = o
@@ -165,6 +171,8 @@ class Builder:
             return cur
         if fin[0] == "where":
             return cur.where(self.ue(fin[1]))
+        if fin[0] == "rename":
+            return cur.withColumnRenamed(fin[1], fin[2])
         if fin[0] == "select":
             cols = []
             for e, out in fin[1]:
